@@ -80,14 +80,14 @@ const (
 )
 
 type Policy struct {
-	Mode       string  `json:"mode"` // "random" | "pct" | "serial" | "forced"
-	SwitchProb float64 `json:"switch_prob,omitempty"`
-	PCTDepth   int     `json:"pct_depth,omitempty"`
-	EstYields  int     `json:"est_yields,omitempty"`
-	StallProb  float64 `json:"stall_prob,omitempty"` // per-yield probability to stall inside StallSites
-	StallAny   float64 `json:"stall_any,omitempty"`  // per-yield probability to stall anywhere
-	MaxYields  int     `json:"max_yields,omitempty"`
-	MaxStalls  int     `json:"max_stalls,omitempty"` // stall faults per run (default 2)
+	Mode       string   `json:"mode"` // "random" | "pct" | "serial" | "forced"
+	SwitchProb float64  `json:"switch_prob,omitempty"`
+	PCTDepth   int      `json:"pct_depth,omitempty"`
+	EstYields  int      `json:"est_yields,omitempty"`
+	StallProb  float64  `json:"stall_prob,omitempty"` // per-yield probability to stall inside StallSites
+	StallAny   float64  `json:"stall_any,omitempty"`  // per-yield probability to stall anywhere
+	MaxYields  int      `json:"max_yields,omitempty"`
+	MaxStalls  int      `json:"max_stalls,omitempty"` // stall faults per run (default 2)
 	Forced     []Switch `json:"forced,omitempty"`
 	// SerialOrder: for mode "serial": task ids in the order they run to completion.
 	SerialOrder []int `json:"serial_order,omitempty"`
@@ -124,10 +124,10 @@ type Sim struct {
 
 	mainR, mainW int
 
-	Switches []Switch
-	Events   []Event
+	Switches   []Switch
+	Events     []Event
 	KeepEvents bool
-	Sig      uint64
+	Sig        uint64
 
 	Stats Stats
 	// SiteBits: approximate set of yield sites executed (bit = FNV(site) mod 4096)
